@@ -25,11 +25,12 @@ template <class F> static void libv(F f) { g_armed = true; f(); g_armed = false;
 // ------------------------------------------------------------------ transcript
 struct Stop {};
 struct Tr {
-  std::vector<std::string> e; const std::vector<std::string> *base = nullptr; bool diverged = false;
-  // record one observable result; in a child: stop at the first entry that differs from the baseline
+  std::vector<std::string> e; const std::vector<std::string> *base = nullptr; bool diverged = false; bool cont = false; size_t first_div = 0;
+  // record one observable result; in a child: stop at the first entry that differs from the baseline (stop mode),
+  // or remember where it was and carry on (continue mode: the application ignores the reported failure)
   void step(const std::string &label, bool ok, const std::string &detail) {
     std::string s = label + "=" + (ok ? "OK:" : "FAIL:") + detail; e.push_back(s);
-    if (base && (e.size() > base->size() || (*base)[e.size() - 1] != s)) { diverged = true; throw Stop(); }
+    if (base && !diverged && (e.size() > base->size() || (*base)[e.size() - 1] != s)) { diverged = true; first_div = e.size() - 1; if (!cont) throw Stop(); }
   }
 };
 static Tr *T;
@@ -78,7 +79,7 @@ static int scen_cb(jwt_t *jwt, jwt_config_t *) {
 
 // ------------------------------------------------------------------ scenarios
 struct Scen { std::string name; std::function<void()> run; };
-static std::vector<Scen> SC; static uint64_t G_SEED = 1;
+static std::vector<Scen> SC; static uint64_t G_SEED = 1; static bool G_CONT_ALL = false;
 
 static std::string jwk_for(const char *key, bool priv, const char *alg, const char *kid = "k1") { JwkOpts o; o.priv = priv; o.alg = alg ? alg : ""; o.kid = kid ? kid : ""; return jwk_json(POOL().get(key), o); }
 
@@ -87,6 +88,7 @@ static void scen_builder(int prov, const char *key, const char *alg_attr, jwt_al
   Set set; const jwk_item_t *item = nullptr; const KeySpec *ks = key ? &POOL().get(key) : nullptr;
   if (key) item = load(set, jwk_for(key, true, alg_attr), 0, "load-key");
   Bld b; b.b = lib([] { return jwt_builder_new(); }); T->step("builder_new", b.b != nullptr, "");
+  if (!b.b) return;
   if (key) { int r = lib([&] { return jwt_builder_setkey(b.b, expl, item); }); T->step("setkey", r == 0, std::to_string(r)); }
   jwt_value_t v = val_str("iss", "issuer", 0); int r = lib([&] { return (int)jwt_builder_claim_set(b.b, &v); }); T->step("claim_set-str", r == 0, std::to_string(r));
   v = val_int("n", 42, 0); r = lib([&] { return (int)jwt_builder_claim_set(b.b, &v); }); T->step("claim_set-int", r == 0, std::to_string(r));
@@ -127,6 +129,7 @@ static void scen_checker(int prov, const char *key, const char *alg_attr, jwt_al
   Set set; const jwk_item_t *item = nullptr;
   if (key) item = load(set, jwk_for(key, ks->kind == K_OCT, alg_attr), 0, "load-key");
   Chk c; c.c = lib([] { return jwt_checker_new(); }); T->step("checker_new", c.c != nullptr, "");
+  if (!c.c) return;
   if (key) { int r = lib([&] { return jwt_checker_setkey(c.c, expl, item); }); T->step("setkey", r == 0, std::to_string(r)); }
   int r = lib([&] { return jwt_checker_claim_set(c.c, JWT_CLAIM_ISS, "issuer"); }); T->step("claim_set-iss", r == 0, std::to_string(r));
   { const char *g = lib([&] { return jwt_checker_claim_get(c.c, JWT_CLAIM_ISS); }); T->step("claim_get-iss", g != nullptr, g ? g : "NULL"); }
@@ -146,6 +149,7 @@ static void scen_keyring(int prov) {
   Set set;
   std::string ks = "{\"keys\":[" + jwk_for("oct64", true, "HS256", "a") + "," + "{\"kty\":\"oct\",\"kid\":\"bad\"}" + "," + jwk_for("ec_p256", false, "ES256", "b") + "," + jwk_for("ed25519", true, nullptr, "a") + "]}";
   load(set, ks, 0, "load-set");
+  if (!set.s) return;
   load(set, jwk_for("rsa_2048", false, "RS256", "r"), 1, "load-more-strn");
   load(set, jwk_for("ec_p384", true, nullptr, nullptr), 2, "load-more-fp");
   load(set, "{\"keys\": nope", 1, "load-nonjson");
@@ -160,7 +164,7 @@ static void scen_keyring(int prov) {
 
 static void scen_load(int prov, const char *key, bool priv, const char *alg, int how) {
   set_provider(prov); Set set;
-  if (how) { set.s = lib([] { return jwks_create(nullptr); }); T->step("create-empty", set.s != nullptr, ""); }
+  if (how) { set.s = lib([] { return jwks_create(nullptr); }); T->step("create-empty", set.s != nullptr, ""); if (!set.s) return; }
   const jwk_item_t *it = load(set, jwk_for(key, priv, alg), how, "load");
   if (it && !jwks_item_error(it) && jwks_item_pem(it)) T->step("pem", true, std::to_string(strlen(jwks_item_pem(it)) > 0));
 }
@@ -221,10 +225,11 @@ static void build_scenarios(bool thorough) {
 }
 
 // ------------------------------------------------------------------ running
-static std::vector<std::string> run_scen(const Scen &s, const std::vector<std::string> *base, bool *diverged) {
-  Tr tr; tr.base = base; T = &tr; g_count = 0; g_armed = false;
+static size_t g_first_div = 0;
+static std::vector<std::string> run_scen(const Scen &s, const std::vector<std::string> *base, bool *diverged, bool cont = false) {
+  Tr tr; tr.base = base; tr.cont = cont; T = &tr; g_count = 0; g_armed = false;
   try { s.run(); } catch (Stop &) {}
-  g_armed = false; if (diverged) *diverged = tr.diverged; return tr.e;
+  g_armed = false; if (diverged) *diverged = tr.diverged; g_first_div = tr.first_div; return tr.e;
 }
 
 static std::map<void *, std::string> SYM;
@@ -246,8 +251,8 @@ static std::string chain_of(void **bt, int n) {
   return chain.empty() ? "nochain" : chain;
 }
 
-struct ChildRes { bool crashed = false; int status = 0; std::vector<std::string> tr; bool diverged = false; void *bt[40]; int btn = 0; std::string err; };
-static ChildRes run_child(const Scen &s, const std::vector<std::string> &base, long k, const std::string &errfile) {
+struct ChildRes { bool crashed = false; int status = 0; std::vector<std::string> tr; bool diverged = false; size_t first_div = 0; void *bt[40]; int btn = 0; std::string err; };
+static ChildRes run_child(const Scen &s, const std::vector<std::string> &base, long k, const std::string &errfile, bool cont = false) {
   ChildRes r; int fds[2]; if (pipe(fds)) { r.crashed = true; return r; }
   fflush(nullptr);
   pid_t p = fork();
@@ -255,8 +260,8 @@ static ChildRes run_child(const Scen &s, const std::vector<std::string> &base, l
     close(fds[0]); int ef = open(errfile.c_str(), O_WRONLY | O_CREAT | O_TRUNC, 0644); if (ef >= 0) { dup2(ef, 2); close(ef); }
     alive() = false;   // the parent's death callback / stats do not belong to the child
     g_btfd = open((errfile + ".bt").c_str(), O_WRONLY | O_CREAT | O_TRUNC, 0644);
-    g_fail_at = k; bool div = false; std::vector<std::string> tr = run_scen(s, &base, &div);
-    std::string out; out += div ? "D\n" : "S\n"; out += std::to_string(g_btn) + "\n"; for (int i = 0; i < g_btn; i++) { char b[32]; snprintf(b, sizeof b, "%p\n", g_bt[i]); out += b; }
+    g_fail_at = k; bool div = false; std::vector<std::string> tr = run_scen(s, &base, &div, cont);
+    std::string out; out += div ? "D\n" : "S\n"; out += std::to_string(g_first_div) + "\n"; out += std::to_string(g_btn) + "\n"; for (int i = 0; i < g_btn; i++) { char b[32]; snprintf(b, sizeof b, "%p\n", g_bt[i]); out += b; }
     for (auto &e : tr) { out += std::to_string(e.size()) + "\n" + e + "\n"; }
     size_t off = 0; while (off < out.size()) { ssize_t w = write(fds[1], out.data() + off, out.size() - off); if (w <= 0) break; off += w; }
     close(fds[1]); _exit(0);
@@ -267,15 +272,29 @@ static ChildRes run_child(const Scen &s, const std::vector<std::string> &base, l
   { std::string b = read_file(errfile + ".bt"); if (b.size() >= sizeof(int)) { int n2; memcpy(&n2, b.data(), sizeof n2); if (n2 > 0 && n2 <= 40 && b.size() >= sizeof(int) + n2 * sizeof(void *)) { r.btn = n2; memcpy(r.bt, b.data() + sizeof(int), n2 * sizeof(void *)); } } unlink((errfile + ".bt").c_str()); }
   // parse (best effort even after a crash there is nothing to parse: the transcript is written at the end)
   size_t pos = 0; auto line = [&]() { size_t q = in.find('\n', pos); std::string l = in.substr(pos, q == std::string::npos ? std::string::npos : q - pos); pos = q == std::string::npos ? in.size() : q + 1; return l; };
-  if (!in.empty()) { r.diverged = line() == "D"; int nb = atoi(line().c_str()); for (int i = 0; i < nb; i++) line();
+  if (!in.empty()) { r.diverged = line() == "D"; r.first_div = strtoul(line().c_str(), nullptr, 10); int nb = atoi(line().c_str()); for (int i = 0; i < nb; i++) line();
     while (pos < in.size()) { size_t len = strtoul(line().c_str(), nullptr, 10); r.tr.push_back(in.substr(pos, len)); pos += len + 1; } }
   return r;
 }
 
 // classify a child's result against the baseline: "" = fine
+static std::string judge(const std::vector<std::string> &base, const ChildRes &c);
 static std::string judge(const std::vector<std::string> &base, const ChildRes &c) {
   if (c.crashed) { std::string kind = "crash"; size_t p = c.err.find("ERROR: AddressSanitizer: "); if (p != std::string::npos) { kind = c.err.substr(p + 25, 40); kind = kind.substr(0, kind.find_first_of(" \n")); } else if (c.err.find("runtime error:") != std::string::npos) kind = "ubsan"; else if (WIFSIGNALED(c.status)) kind = "signal" + std::to_string(WTERMSIG(c.status)); return "crash:" + kind; }
   if (!c.diverged) { if (c.tr.size() != base.size()) return "transcript-length-differs"; return ""; }
+  if (c.tr.size() > c.first_div + 1) {
+    // continue mode: the first differing entry must be a documented failure; what follows may differ legitimately, but a
+    // later verify must not accept what the baseline rejected and a later token must still carry a valid signature
+    const std::string &fd = c.tr[c.first_div]; std::string frest = fd.substr(fd.find('=') + 1);
+    for (size_t i = c.first_div + 1; i < c.tr.size(); i++) {
+      const std::string &e = c.tr[i]; size_t eq = e.find('='); std::string label = e.substr(0, eq), rest = e.substr(eq + 1);
+      if (rest.find("INVALID-SIGNATURE") != std::string::npos) return "token-with-invalid-signature-after-reported-failure";
+      if (label.rfind("verify", 0) == 0 && rest.rfind("OK:", 0) == 0 && i < base.size() && base[i].substr(0, base[i].find('=')) == label && base[i].find("=FAIL:") != std::string::npos) return "accepts-token-it-rejects-without-fault-after-reported-failure";
+    }
+    if (frest.rfind("FAIL:", 0) == 0) return "";
+    // fall through: judge the first differing entry like in stop mode
+    ChildRes c2 = c; c2.tr.resize(c.first_div + 1); return judge(base, c2);
+  }
   // diverged: everything before the last entry equals the baseline by construction; the last one must be a documented failure
   const std::string &last = c.tr.back(); size_t eq = last.find('='); std::string label = last.substr(0, eq), rest = last.substr(eq + 1);
   if (rest.rfind("FAIL:", 0) == 0) return "";
@@ -287,19 +306,21 @@ static std::string judge(const std::vector<std::string> &base, const ChildRes &c
 
 int main(int argc, char **argv) {
   Args a = parse_args(argc, argv);
-  POOLP = new Pool(standard_pool()); vo::init_keys(false); G_SEED = a.seed;
+  POOLP = new Pool(standard_pool()); vo::init_keys(false); G_SEED = a.seed; G_CONT_ALL = a.thorough();
   jwt_set_alloc(fi_malloc, fi_free);
   build_scenarios(a.thorough());
   Stats &st = stats();
   std::string errfile = (a.out.empty() ? std::string("/tmp/c17") : a.out) + ".childerr";
-  auto one = [&](size_t si, long k, const std::vector<std::string> &base, bool count) -> std::string {
-    ChildRes c = run_child(SC[si], base, k, errfile);
+  std::function<std::string(size_t, long, const std::vector<std::string> &, bool, bool)> one;
+  one = [&](size_t si, long k, const std::vector<std::string> &base, bool count, bool cont) -> std::string {
+    ChildRes c = run_child(SC[si], base, k, errfile, cont);
     std::string j = judge(base, c);
     std::string chain = c.btn ? chain_of((void **)c.bt, c.btn) : "failing-request-not-reached";
-    if (count) { st.evaluations++; st.cls(c.crashed ? "outcome:crash" : !c.diverged ? "outcome:same-as-fault-free" : j.empty() ? "outcome:clean-failure" : "outcome:violation"); st.nontrivial(mix(fnv(SC[si].name.substr(0, SC[si].name.find('/', 8))), fnv(chain))); }
+    if (count) { st.evaluations++; st.cls(std::string(cont ? "continue-mode:" : "outcome:") + (c.crashed ? "crash" : !c.diverged ? "same-as-fault-free" : j.empty() ? "clean-failure" : "violation")); st.nontrivial(mix(fnv(SC[si].name.substr(0, SC[si].name.find('/', 8))), fnv(chain))); }
+    if (j.empty() && !cont && c.diverged && !c.crashed && (G_CONT_ALL || (k & 1))) return one(si, k, base, count, true);   // the application ignores the failure and carries on
     if (j.empty()) return "";
     std::string sig = "C17:" + j + ":" + chain;
-    std::string rj = "{\"scenario\":" + jstr(SC[si].name) + ",\"scenario_index\":" + std::to_string(si) + ",\"fault_index\":" + std::to_string(k) + ",\"failing_allocation\":" + jstr(chain) + ",\"child_last_entry\":" + jstr(c.tr.empty() ? "" : c.tr.back().substr(0, 600)) + ",\"baseline_entry\":" + jstr(c.tr.empty() || c.tr.size() > base.size() ? "" : base[c.tr.size() - 1].substr(0, 600)) + ",\"stderr_tail\":" + jstr(c.err.substr(0, 1500)) + "}";
+    std::string rj = "{\"mode\":\"" + std::string(cont ? "continue" : "stop") + "\",\"scenario\":" + jstr(SC[si].name) + ",\"scenario_index\":" + std::to_string(si) + ",\"fault_index\":" + std::to_string(k) + ",\"failing_allocation\":" + jstr(chain) + ",\"child_last_entry\":" + jstr(c.tr.empty() ? "" : c.tr.back().substr(0, 600)) + ",\"baseline_entry\":" + jstr(c.tr.empty() || c.tr.size() > base.size() ? "" : base[c.tr.size() - 1].substr(0, 600)) + ",\"stderr_tail\":" + jstr(c.err.substr(0, 1500)) + "}";
     if (count) { if (st.violation(sig, "single allocation failure: " + j + " (failing request: " + chain + ")", rj)) {} }
     return sig;
   };
@@ -308,10 +329,10 @@ int main(int argc, char **argv) {
     std::string name = json_string_value(json_object_get(j.p, "scenario")); long k = (long)json_integer_value(json_object_get(j.p, "fault_index"));
     { size_t sp = name.find("/seed"); if (name.rfind("history/", 0) == 0 && sp != std::string::npos) { G_SEED = strtoull(name.c_str() + sp + 5, nullptr, 10); SC.clear(); build_scenarios(true); } }
     if (a.kv.count("all")) {}
-    for (size_t si = 0; si < SC.size(); si++) if (SC[si].name == name) { std::vector<std::string> base = run_scen(SC[si], nullptr, nullptr); std::string r = one(si, k, base, false); if (!r.empty()) fprintf(stderr, "replay: %s\n", r.c_str()); return r.empty() ? 0 : 3; }
+    for (size_t si = 0; si < SC.size(); si++) if (SC[si].name == name) { std::vector<std::string> base = run_scen(SC[si], nullptr, nullptr); G_CONT_ALL = true; std::string r = one(si, k, base, false, false); if (!r.empty()) fprintf(stderr, "replay: %s\n", r.c_str()); return r.empty() ? 0 : 3; }
     // thorough-only scenario replayed in quick mode: build the full catalogue
     SC.clear(); build_scenarios(true);
-    for (size_t si = 0; si < SC.size(); si++) if (SC[si].name == name) { std::vector<std::string> base = run_scen(SC[si], nullptr, nullptr); std::string r = one(si, k, base, false); return r.empty() ? 0 : 3; }
+    for (size_t si = 0; si < SC.size(); si++) if (SC[si].name == name) { std::vector<std::string> base = run_scen(SC[si], nullptr, nullptr); G_CONT_ALL = true; std::string r = one(si, k, base, false, false); return r.empty() ? 0 : 3; }
     return 2;
   }
   long total = 0; std::string per;
@@ -320,7 +341,7 @@ int main(int argc, char **argv) {
     // the baseline must be reproducible, otherwise the scenario cannot be judged
     { std::vector<std::string> b2 = run_scen(SC[si], nullptr, nullptr); if (b2 != base || g_count != N) { st.cls("scenario-not-deterministic-skipped"); continue; } }
     total += N; if (a.worker == 0) per += (per.empty() ? "" : ",") + jstr(SC[si].name) + ":" + std::to_string(N);
-    for (long k = 1; k <= N; k++) { if ((int)((k + si) % a.nworkers) != a.worker) continue; one(si, k, base, true); }
+    for (long k = 1; k <= N; k++) { if ((int)((k + si) % a.nworkers) != a.worker) continue; one(si, k, base, true, false); }
     if (a.worker == 0 && st.samples.size() < st.sample_cap && (si % 9) == 0) st.sample("{\"scenario\":" + jstr(SC[si].name) + ",\"allocations\":" + std::to_string(N) + ",\"baseline_transcript_head\":" + jstr(base.empty() ? "" : base[0].substr(0, 200)) + ",\"steps\":" + std::to_string(base.size()) + "}");
   }
   if (a.worker == 0) { st.extra["scenarios"] = std::to_string(SC.size()); st.extra["fault_indices_total"] = std::to_string(total); st.extra["allocations_per_scenario"] = "{" + per + "}"; }
